@@ -165,7 +165,33 @@ Definition fin_eqb (a b : fin_link) : bool :=
   let '(q1, f1, r1) := a in let '(q2, f2, r2) := b in
   list_eqb qe_eqb q1 q2 && (f1 =? f2) && regime_eqb r1 r2.
 
-Inductive case := Case (init : list linit) (tr : list (op * obs)) (fin : list fin_link).
+(** [CaseU]: the same, plus for every step the harness's own judgement, taken BEFORE the step on the real
+    links, whether some uplink was usable in the sense of the property text / of C03 (connected and not timed
+    out under the configured liveness window, the link's own copy of the window agreeing with it).  Clause
+      10 the session is established, an uplink is usable, a non-empty client datagram arrives, and the sender
+         routes it nowhere (dropped before / instead of scheduling)
+    is evaluated on the implementation's trace only: in the model the scheduler's answer is an input
+    (that a usable uplink always gets the packet is property C03's theorem). *)
+Inductive case :=
+| Case (init : list linit) (tr : list (op * obs)) (fin : list fin_link)
+| CaseU (init : list linit) (tr : list (op * obs)) (fin : list fin_link) (us : list bool).
+
+Definition blackout_step (o : op) (u : bool) : bool :=
+  match o with
+  | Client _ pkt sel reg _ _ =>
+    match pkt, sel with
+    | _ :: _, None => reg && u
+    | _, _ => false
+    end
+  | _ => false
+  end.
+
+(** 1-based index of the first step that drops a datagram although an uplink was usable, 0 if none *)
+Fixpoint first_blackout (tr : list (op * obs)) (us : list bool) (k : N) : N :=
+  match tr, us with
+  | (o, _) :: t, u :: us' => if blackout_step o u then k else first_blackout t us' (k + 1)%N
+  | _, _ => 0%N
+  end.
 
 (** short constructors for case text *)
 Definition L (r : regime) (c : bool) (k : Z) (io : bool) : linit :=
@@ -173,8 +199,7 @@ Definition L (r : regime) (c : bool) (k : Z) (io : bool) : linit :=
 Definition O (w : list (list dgram)) (q c : list Z) (b : list bool) : obs :=
   {| o_wire := w; o_q := q; o_ctr := c; o_conn := b |}.
 
-Definition check_case (c : case) : N :=
-  let '(Case xs tr fin) := c in
+Definition check_core (xs : list linit) (tr : list (op * obs)) (fin : list fin_link) : N :=
   let '(kb, ls) := cmp_run (init xs) tr 0 in
   let kb := if negb (kb =? 0)%N then kb
             else if list_eqb fin_eqb (map fin_of ls) fin then 0%N
@@ -184,3 +209,13 @@ Definition check_case (c : case) : N :=
   let km := (mon / 256)%N in
   ((if (kb =? 0)%N then 0 else 1) + (if (code =? 0)%N then 0 else 2) + 4 * code +
    1024 * (if (code =? 0)%N then kb else km))%N.
+
+Definition check_case (c : case) : N :=
+  match c with
+  | Case xs tr fin => check_core xs tr fin
+  | CaseU xs tr fin us =>
+    let r := check_core xs tr fin in
+    if N.testbit r 1 then r
+    else let k := first_blackout tr us 1 in
+         if (k =? 0)%N then r else (N.land r 1 + 2 + 4 * 10 + 1024 * k)%N
+  end.
